@@ -111,8 +111,51 @@ type Ctx struct {
 // stableCell is a memory cell no callee can write: a non-escaping local or a
 // captured variable of the closure under verification.
 type stableCell struct {
+	addr   T
+	typ    types.Type
+	stores []ssa.Instruction // direct stores to the cell (incl. through closures)
+}
+
+// snapshotStable records the current value of every leaf of the stable cells
+// selected by keep; restoreStable asserts the (havocked) heaps still hold them.
+type stableSnap struct {
+	heap string
 	addr T
-	typ  types.Type
+	val  T
+}
+
+func (c *Ctx) snapshotStable(st *State, keep func(sc *stableCell) bool) []stableSnap {
+	var out []stableSnap
+	var leaves func(a T, t types.Type)
+	leaves = func(a T, t types.Type) {
+		switch u := under(t).(type) {
+		case *types.Struct:
+			for i := 0; i < u.NumFields(); i++ {
+				leaves(Fld(a, c.R.FieldID(t, i)), u.Field(i).Type())
+			}
+		case *types.Array:
+			for i := int64(0); i < u.Len() && i < 8; i++ {
+				leaves(Idx(a, IntLit(i)), u.Elem())
+			}
+		default:
+			h := c.R.CellHeap(c.R.SortOf(t))
+			out = append(out, stableSnap{h, a, Select(c.getHeap(st, h), a)})
+		}
+	}
+	for i := range c.stable {
+		if keep == nil || keep(&c.stable[i]) {
+			leaves(c.stable[i].addr, c.stable[i].typ)
+		}
+	}
+	return out
+}
+
+func (c *Ctx) restoreStable(st *State, snaps []stableSnap) {
+	for _, k := range snaps {
+		if cur, ok := st.heaps[k.heap]; ok && cur.S != "" {
+			c.emit("(assert (= (select %s %s) %s))", cur.S, k.addr.S, k.val.S)
+		}
+	}
 }
 
 func NewCtx(w *World, fn *ssa.Function, opt Options) *Ctx {
@@ -316,39 +359,8 @@ func (c *Ctx) havocAll(st *State) {
 			c.loopAll[k] = true
 		}
 	}
-	// leaves of stable cells keep their value
-	type keep struct {
-		heap string
-		addr T
-		val  T
-	}
-	var keeps []keep
-	var leaves func(a T, t types.Type)
-	leaves = func(a T, t types.Type) {
-		switch u := under(t).(type) {
-		case *types.Struct:
-			for i := 0; i < u.NumFields(); i++ {
-				leaves(Fld(a, c.R.FieldID(t, i)), u.Field(i).Type())
-			}
-		case *types.Array:
-			for i := int64(0); i < u.Len() && i < 8; i++ {
-				leaves(Idx(a, IntLit(i)), u.Elem())
-			}
-		default:
-			h := c.R.CellHeap(c.R.SortOf(t))
-			keeps = append(keeps, keep{h, a, Select(c.getHeap(st, h), a)})
-		}
-	}
-	for _, sc := range c.stable {
-		leaves(sc.addr, sc.typ)
-	}
-	defer func() {
-		for _, k := range keeps {
-			if cur, ok := st.heaps[k.heap]; ok {
-				c.emit("(assert (= (select %s %s) %s))", cur.S, k.addr.S, k.val.S)
-			}
-		}
-	}()
+	snaps := c.snapshotStable(st, nil)
+	defer c.restoreStable(st, snaps)
 	names := append([]string(nil), c.R.heapOrder...)
 	for _, n := range names {
 		if n == HAlloc {
